@@ -43,7 +43,7 @@ MailDec(k, h) == [syntax |-> k # "badsyntax", size |-> k \notin {"sizebig", "siz
 RcptRec(k) == [addr |-> k, mbox |-> CASE k \in {"a1", "a2"} -> "A" [] k = "b" -> "B" [] OTHER -> "C",
                store |-> k \in {"a1", "a2", "b"}]
 RcptDec(k, h) == [valid |-> k # "bad", hook |-> HookOf(h), accept |-> k \notin {"rej", "bad"}]
-BodyDec(k) == [parse |-> k # "unparseable", fits |-> k # "big", hook |-> NoHook]
+BodyDec(k) == [parse |-> k # "unparseable", fits |-> k # "big", hook |-> NoHook, fails |-> {}]
 
 Rec(x) == hist' = IF Record THEN Append(hist, x) ELSE hist
 
